@@ -40,7 +40,13 @@ fn fold_lit(e: &Expr) -> Option<Lit> {
             Lit::F(b) => Some(Lit::F(b ^ 0x8000_0000)),
         },
         Expr::Var(v) => match (&v.value.ty_sigil, &v.value.name) {
-            (None, ast::VarName::Normal { ident, .. }) if ident.as_str() == "INF" => Some(Lit::F(0x7f80_0000)),
+            (None, ast::VarName::Normal { ident, .. }) => match ident.as_str() {
+                "INF" => Some(Lit::F(0x7f80_0000)),
+                "NAN" => Some(Lit::F(0x7fc0_0000)),
+                "true" => Some(Lit::I(1)),
+                "false" => Some(Lit::I(0)),
+                _ => None,
+            },
             _ => None,
         },
         _ => None,
@@ -114,7 +120,11 @@ impl Canon {
 
     fn block(&mut self, b: &ast::Block) {
         self.p("(block");
-        for st in &b.0 { self.p("\n  "); self.stmt(&st.value); }
+        for st in &b.0 {
+            // the block bookends carry nothing; the decompiler and the parser place them differently
+            if self.fold && matches!(st.value.kind, StmtKind::NoInstruction) && st.value.diff_label.is_none() { continue; }
+            self.p("\n  "); self.stmt(&st.value);
+        }
         self.p(")");
     }
 
@@ -340,6 +350,10 @@ fn classify(kind: &str, printed: &str, raw_flags: &Flags, class: &str) -> String
         let joined: String = t.iter().collect();
         if joined.contains("+++") { return "rel-time-plus-glued-to-increment".into(); }
     }
+    if kind.ends_with("ast-differs") {
+        let joined: String = t.iter().collect();
+        if joined.contains("--INF") || joined.contains("--NAN") { return "neg-of-negative-literal-reparses-as-decrement".into(); }
+    }
     if kind == "not-idempotent" && raw_flags.neg_lit { return "negative-literal-reparses-as-parenthesised-unop".into(); }
     class.to_string()
 }
@@ -448,7 +462,9 @@ pub fn run(tier: &str) -> Report {
 
     // ---------------- (P) parser-produced ASTs
     let t0 = std::time::Instant::now();
-    let cases = gen_p(thorough);
+    let (cases, edfs_note, edfs_capped) = gen_p(thorough);
+    rep.extra.insert("edfs".into(), json!(edfs_note));
+    if edfs_capped { capped = true; }
     rep.transitions += cases.len() as u64;
     for c in &cases { *families.entry(format!("P:{}", c.class)).or_insert(0) += 1; }
     timings.insert("p_generate_s".into(), json!(t0.elapsed().as_secs_f64()));
@@ -510,7 +526,7 @@ pub fn run(tier: &str) -> Report {
         for (k, n) in &ev.outcomes { rep.outcome_n(&format!("P:{k}"), *n); }
         let nontrivial = ev.changes_with_width || fl.neg_lit || fl.switch || fl.nested_unary || has_nondecimal(&c.text) || outside_strings(&ev.t99).len() != ev.t99.len() && ev.t99.contains('\\');
         if nontrivial { rep.nontrivial += 1; }
-        if ev.fails.is_empty() && ev.changes_with_width && (rank % 997 == 3) {
+        if ev.fails.is_empty() && ev.changes_with_width && (rank % 997 == 3) && rep.samples.len() < 8 {
             rep.sample(json!({"source": "P", "class": c.class, "text": c.text, "printed_at_99": ev.t99}));
         }
         // one failure per (kind, class) for this AST: the smallest width
@@ -585,7 +601,7 @@ pub fn replay(detail: &Value) -> i32 {
 
 pub struct PCase { pub text: String, pub class: String }
 
-struct Gen { out: Vec<PCase>, seen: BTreeSet<String> }
+struct Gen { out: Vec<PCase>, seen: BTreeSet<String>, edfs_note: String, edfs_capped: bool }
 impl Gen {
     fn push(&mut self, class: &str, text: String) {
         if self.seen.insert(text.clone()) { self.out.push(PCase { text, class: class.to_string() }); }
@@ -1060,7 +1076,7 @@ fn gen_items(g: &mut Gen, thorough: bool) {
     }
     for s in ["meta { v: name { a: 1 } }", "meta { v: name: { a: 1 } }", "meta { v: name {} }", "meta { entry: 1, script: 2, mapfile: 3, default: 4, case: 5, anim: 6, ecli: 7 }", "meta { a: 1, }", "meta { a: [1, 2,], }", "meta { }", "meta { a: [], b: {}, c: [[]], d: [{}], e: x {} }",
               "entry { sprites: { sprite0: {id: 0, x: 0.0, y: 0.0, w: 512.0, h: 480.0}, sprite1: {x: 1.0, y: 1.0, w: 2.0, h: 2.0} }, path: \"subdir/file.png\", has_data: false, img_format: FORMAT_ARGB_8888 }",
-              "meta { a: b, c: d.e, f: g(1), h: -i, j: k + 1, l: (m : n), o: p ? 1 : 2, q: offsetof(r), s: $t, u: REG[1] }"] {
+              "meta { a: b, c: d.e, f: g(1), h: -i, j: k + 1, l: (m : n), o: (p ? 1 : 2), q: offsetof(r), s: $t, u: REG[1] }"] {
         g.push("meta:syntax", format!("{s}\n"));
     }
 }
@@ -1114,15 +1130,18 @@ fn gen_edfs(g: &mut Gen, thorough: bool) {
             _ => format!("{{ {} {} }}", if depth > 0 { stmt(ch, depth - 1) } else { String::new() }, if depth > 0 { stmt(ch, depth - 1) } else { String::new() }),
         }
     }
-    let (b_expr, b_stmt, cap) = if thorough { (4, 4, 400_000) } else { (3, 3, 30_000) };
+    let (b_expr, b_stmt, cap) = if thorough { (4, 4, 3_000_000) } else { (3, 3, 300_000) };
+    let (b_expr, b_stmt): (u32, u32) = (std::env::var("C08_BE").ok().and_then(|s| s.parse().ok()).unwrap_or(b_expr), std::env::var("C08_BS").ok().and_then(|s| s.parse().ok()).unwrap_or(b_stmt));
     let mut texts: Vec<(&'static str, String)> = vec![];
-    explore_dfs(b_expr, cap, &|ch| format!("I0 = {};\n    f({}, z);", expr(ch, 3, false), expr(ch, 2, false)), &mut |_, t| texts.push(("edfs:expr", t)));
-    explore_dfs(b_stmt, cap, &|ch| format!("{}\n    {}", stmt(ch, 2), stmt(ch, 1)), &mut |_, t| texts.push(("edfs:stmt", t)));
+    let s1 = explore_dfs(b_expr, cap, &|ch| format!("I0 = {};\n    f({}, z);", expr(ch, 3, false), expr(ch, 2, false)), &mut |_, t| texts.push(("edfs:expr", t)));
+    let s2 = explore_dfs(b_stmt, cap, &|ch| format!("{}\n    {}", stmt(ch, 2), stmt(ch, 1)), &mut |_, t| texts.push(("edfs:stmt", t)));
+    g.edfs_note = format!("expr: bound {b_expr}, {} runs{}; stmt: bound {b_stmt}, {} runs{}", s1.runs, if s1.capped { " (CAPPED)" } else { "" }, s2.runs, if s2.capped { " (CAPPED)" } else { "" });
+    g.edfs_capped = s1.capped || s2.capped;
     for (c, t) in texts { g.body(c, &t); }
 }
 
-pub fn gen_p(thorough: bool) -> Vec<PCase> {
-    let mut g = Gen { out: vec![], seen: BTreeSet::new() };
+pub fn gen_p(thorough: bool) -> (Vec<PCase>, String, bool) {
+    let mut g = Gen { out: vec![], seen: BTreeSet::new(), edfs_note: String::new(), edfs_capped: false };
     gen_atoms_in_contexts(&mut g, thorough);
     gen_unops(&mut g, thorough);
     gen_binops(&mut g, thorough);
@@ -1131,14 +1150,14 @@ pub fn gen_p(thorough: bool) -> Vec<PCase> {
     gen_statements(&mut g, thorough);
     gen_items(&mut g, thorough);
     gen_edfs(&mut g, thorough);
-    g.out
+    (g.out, g.edfs_note, g.edfs_capped)
 }
 
 // =============================================================================================
 // (D) decompiler-produced ASTs
 
 #[derive(Clone)]
-pub struct DCase { class: String, kind: Kind, game: &'static str, mapfile: String, source: String, nan: bool }
+pub struct DCase { class: String, kind: Kind, game: &'static str, mapfile: String, source: String, nan: bool, foldable: bool }
 
 const ANM_HEAD: &str = r#"entry {
     path: "subdir/file.png",
@@ -1211,7 +1230,7 @@ const ANM_MAP: &str = r#"!anmmap
 2033 CountJmp(op="!=")
 !enum(name="TestEnum")
 0 Zero
-1 X
+1 One
 20 Red
 -1 Minus
 !gvar_names
@@ -1226,10 +1245,27 @@ const ANM_MAP: &str = r#"!anmmap
 10004 %
 "#;
 
+const ECL_MAP: &str = r#"!eclmap
+!ins_signatures
+2000 S
+2001 f
+2002 SfS
+2003 z(bs=4)
+!difficulty_flags
+0 E-
+1 N-
+2 H-
+3 L-
+4 4+
+5 5+
+6 6+
+7 7+
+"#;
+
 fn hex_le(bytes: &[u8]) -> String { bytes.iter().map(|b| format!("{b:02x}")).collect() }
 
 fn anm_case(class: &str, body: &str, nan: bool) -> DCase {
-    DCase { class: class.into(), kind: Kind::Anm, game: "th12", mapfile: ANM_MAP.into(), source: format!("{ANM_HEAD}script script0 {{\n{body}\n}}\n"), nan }
+    DCase { class: class.into(), kind: Kind::Anm, game: "th12", mapfile: ANM_MAP.into(), source: format!("{ANM_HEAD}script script0 {{\n{body}\n}}\n"), nan, foldable: false }
 }
 
 pub fn float_class_bits() -> Vec<(u32, &'static str)> {
@@ -1261,31 +1297,41 @@ fn gen_d(thorough: bool) -> Vec<DCase> {
     for (bits, cls) in float_class_bits() {
         let nan = f32::from_bits(bits).is_nan();
         v.push(anm_case(&format!("float:{cls}"), &format!("    ins_2012(@blob=\"{}\");", hex_le(&bits.to_le_bytes())), nan));
-        v.push(anm_case(&format!("float-as-register:{cls}"), &format!("    ins_2012(@mask=1, @blob=\"{}\");", hex_le(&bits.to_le_bytes())), false));
+        // a float-typed register operand stores the register number as a float: only integral values are meaningful
+        let fv = f32::from_bits(bits);
+        if fv.fract() == 0.0 && fv.abs() < 1e9 && bits != 0x8000_0000 {
+            v.push(anm_case(&format!("float-as-register:{cls}"), &format!("    ins_2012(@mask=1, @blob=\"{}\");", hex_le(&bits.to_le_bytes())), false));
+        }
         v.push(anm_case(&format!("float-in-SfC:{cls}"), &format!("    ins_2015(@blob=\"ffffffff {} 80000000\");", hex_le(&bits.to_le_bytes())), nan));
         // intrinsics with this operand:  Z = sin(x);  Z = -(x);  Z = x;  Z = x * x;
         for op in [2023, 2024, 2029] {
-            v.push(anm_case(&format!("float-intrinsic-{op}:{cls}"), &format!("    ins_{op}(@mask=1, @blob=\"00401c46 {}\");", hex_le(&bits.to_le_bytes())), nan));
+            let mut c = anm_case(&format!("float-intrinsic-{op}:{cls}"), &format!("    ins_{op}(@mask=1, @blob=\"00401c46 {}\");", hex_le(&bits.to_le_bytes())), nan);
+            c.foldable = op != 2029; v.push(c);
         }
-        v.push(anm_case(&format!("float-intrinsic-2030:{cls}"), &format!("    ins_2030(@mask=1, @blob=\"00401c46 {} {}\");", hex_le(&bits.to_le_bytes()), hex_le(&bits.to_le_bytes())), nan));
+        let mut c = anm_case(&format!("float-intrinsic-2030:{cls}"), &format!("    ins_2030(@mask=1, @blob=\"00401c46 {} {}\");", hex_le(&bits.to_le_bytes()), hex_le(&bits.to_le_bytes())), nan);
+        c.foldable = true; v.push(c);
+        // register operand and literal operand: nothing to fold
+        v.push(anm_case(&format!("float-intrinsic-2030-reg:{cls}"), &format!("    ins_2030(@mask=3, @blob=\"00401c46 00401c46 {}\");", hex_le(&bits.to_le_bytes())), nan));
     }
     // int intrinsics:  X = -(v);  X = ~(v);  X = !(v);  X = a + b;  X = a - b;  X = v;  X -= v;  with literal and register operands
     let ops: Vec<(u32, &str)> = vec![(3, "lit 3"), (4, "lit 4"), (0xffff_fffd, "lit -3"), (0x8000_0000, "lit MIN"), (0, "lit 0")];
     for op in [2020, 2021, 2022, 2027, 2028] {
         for (x, name) in &ops {
-            v.push(anm_case(&format!("int-intrinsic-{op}:{name}"), &format!("    ins_{op}(@mask=1, @blob=\"10270000 {}\");", hex_le(&x.to_le_bytes())), false));
+            let mut c = anm_case(&format!("int-intrinsic-{op}:{name}"), &format!("    ins_{op}(@mask=1, @blob=\"10270000 {}\");", hex_le(&x.to_le_bytes())), false);
+            c.foldable = op <= 2022; v.push(c);
         }
         for reg in [10000u32, 10001, 10002, 10003, 9999] {
             v.push(anm_case(&format!("int-intrinsic-{op}:reg"), &format!("    ins_{op}(@mask=3, @blob=\"10270000 {}\");", hex_le(&reg.to_le_bytes())), false));
         }
     }
     for op in [2025, 2026] { for (a, _) in &ops { for (b, _) in &ops {
-        v.push(anm_case(&format!("int-intrinsic-{op}:lit-lit"), &format!("    ins_{op}(@mask=1, @blob=\"10270000 {} {}\");", hex_le(&a.to_le_bytes()), hex_le(&b.to_le_bytes())), false));
+        let mut c = anm_case(&format!("int-intrinsic-{op}:lit-lit"), &format!("    ins_{op}(@mask=1, @blob=\"10270000 {} {}\");", hex_le(&a.to_le_bytes()), hex_le(&b.to_le_bytes())), false);
+        c.foldable = true; v.push(c);
     }}}
     // jumps: labels, negative and positive times, conditional jumps with negative literals
     for t in [0i32, 5, -5, 100] { for (a, _) in &ops {
-        v.push(anm_case("jump-intrinsics", &format!("{t}:\n    ins_2032(@mask=0, @blob=\"{} fdffffff 00000000 {}\");\n    ins_2031(@blob=\"00000000 {}\");\n    ins_2033(@mask=1, @blob=\"10270000 00000000 {}\");",
-            hex_le(&a.to_le_bytes()), hex_le(&t.to_le_bytes()), hex_le(&t.to_le_bytes()), hex_le(&t.to_le_bytes())), false));
+        v.push(DCase { foldable: true, ..anm_case("jump-intrinsics", &format!("{t}:\n    ins_2032(@mask=0, @blob=\"{} fdffffff 00000000 {}\");\n    ins_2031(@blob=\"00000000 {}\");\n    ins_2033(@mask=1, @blob=\"10270000 00000000 {}\");",
+            hex_le(&a.to_le_bytes()), hex_le(&t.to_le_bytes()), hex_le(&t.to_le_bytes()), hex_le(&t.to_le_bytes())), false) });
     }}
     // time labels
     for times in [vec![0, 0], vec![5, 5, 10], vec![-5, -1, 0, 3], vec![-32768, 32767], vec![10, 5], vec![0, 300, 300, 301]] {
@@ -1305,6 +1351,31 @@ fn gen_d(thorough: bool) -> Vec<DCase> {
         let fb: Vec<String> = (0..12u32).map(|i| hex_le(&((n as f32) * (i as f32 - 5.5) / 7.0).to_bits().to_le_bytes())).collect();
         v.push(anm_case("twelve-floats", &format!("    ins_2034(@blob=\"{}\");", fb.join(" ")), false));
     }
+    // ECL (TH08): difficulty switches and difficulty labels produced by the decompiler
+    let ecl = |class: &str, body: &str, nan: bool| DCase { class: class.into(), kind: Kind::Ecl, game: "th08", mapfile: ECL_MAP.into(),
+        source: format!("script timeline0 {{}}\nvoid sub0() {{\n{body}\n}}\n"), nan, foldable: false };
+    let value_sets: Vec<(&str, u32, Vec<&str>, bool)> = vec![
+        ("ints", 2000, vec!["1", "2", "3", "4"], false),
+        ("boundary-ints", 2000, vec!["-1", "0x80000000", "0x7fffffff", "-2147483647"], false),
+        ("floats", 2001, vec!["1.5", "-0.0", "INF", "-INF"], false),
+        ("tiny-floats", 2001, vec!["0.000000000000000000000000000000000000000000001", "340282350000000000000000000000000000000.0", "-1.0000001", "0.1"], false),
+        ("nan", 2001, vec!["NAN", "1.0", "-NAN", "2.0"], true),
+        ("strings", 2003, vec!["\"a\"", "\"\\\"q\\\"\"", "\"日本語\"", "\"\""], false),
+        ("registers", 2000, vec!["$REG[10000]", "2", "$REG[-10001]", "4"], false),
+    ];
+    for (name, op, vals, nan) in &value_sets {
+        for holes in 0u32..8 {
+            let parts: Vec<String> = (0..4).map(|i| if i > 0 && holes >> (i - 1) & 1 == 1 { String::new() } else { vals[i].to_string() }).collect();
+            v.push(ecl(&format!("ecl-diff-switch:{name}"), &format!("    ins_{op}({});", parts.join(":")), *nan && !(holes & 2 == 2 && true) || (*nan && holes & 2 == 0)));
+        }
+        v.push(ecl(&format!("ecl-diff-switch:{name}"), &format!("    ins_2002(1:2:3:4, 1.0:2.5::, 7:::8);\n    ins_{op}({}:{}:{}:{});\n    ins_{op}({});", vals[0], vals[1], vals[2], vals[3], vals[0]), *nan));
+    }
+    for lab in ["E", "N", "H", "L", "EN", "HL", "ENH", "NHL", "EL", "ENHL", "4", "E4", "567", "ENHL4567"] {
+        v.push(ecl("ecl-diff-label", &format!("    {{\"{lab}\"}}: ins_2000(5);\n    {{\"{lab}\"}}: ins_2001(-7.5);\n+10:\n    {{\"{lab}\"}}: ins_2002(-1, -1.0, 0x80000000);\n    ins_2000(9);"), false));
+    }
+    for (a, b) in [("EN", "HL"), ("E", "NHL"), ("E", "N"), ("EH", "NL"), ("ENH", "L")] {
+        v.push(ecl("ecl-diff-label-merge", &format!("    {{\"{a}\"}}: ins_2000(5);\n    {{\"{b}\"}}: ins_2000(-6);\n    {{\"{a}\"}}: ins_2002(1, 2.0, 3);\n    {{\"{b}\"}}: ins_2002(-1, 2.0, 3);"), false));
+    }
     // unknown instruction -> @blob pseudo-arg in the decompiled text; masks on it
     for len in [0usize, 1, 2, 5, 12, 40] { for mask in [0u32, 1, 0xffff] {
         let blob: Vec<String> = (0..len).map(|i| format!("{:08x}", (i as u32).wrapping_mul(0x01234567))).collect();
@@ -1315,6 +1386,37 @@ fn gen_d(thorough: bool) -> Vec<DCase> {
 
 struct DEval { widths_done: u64, comparisons: u64, changes_with_width: bool, t99: String, fails: Vec<Fail>, outcomes: Vec<String>, discarded: Option<String>, reprint_differs: bool, warned: bool }
 
+/// The decompiler's AST itself (the same calls as `drive::decompile`, stopping before the formatter).
+fn decompile_ast(tool: Tool, bytes: &[u8], mapfile: &str) -> Result<ast::ScriptFile, String> {
+    use truth::io::BinReader;
+    let mut scope = truth::Builder::new().capture_diagnostics(true).build();
+    let mut truth = scope.truth();
+    let r = catch(|| -> Result<ast::ScriptFile, ()> {
+        macro_rules! t { ($e:expr) => { match $e { Ok(v) => v, Err(e) => { let e: truth::ErrorReported = e; e.ignore(); return Err(()); } } } }
+        for lang in tool.languages() {
+            let m = truth::verif_hooks::core_mapfile(truth.ctx().emitter, tool.game, lang);
+            t!(truth.apply_mapfile(&m, tool.game));
+        }
+        t!(truth.apply_mapfile_str(mapfile, tool.game));
+        let emitter = truth.ctx().emitter;
+        let mut tv = t!(truth.validate_defs());
+        let mut r = BinReader::from_reader(emitter, "<input file>", std::io::Cursor::new(bytes.to_vec()));
+        let opts = truth::DecompileOptions::default();
+        Ok(match tool.kind {
+            Kind::Anm => { let f = t!(truth::AnmFile::read_from_stream(&mut r, tool.game, false)); t!(tv.decompile_anm(tool.game, &f, &opts)) },
+            Kind::Ecl => { let f = t!(truth::EclFile::read_from_stream(&mut r, tool.game)); t!(tv.decompile_ecl(tool.game, &f, &opts)) },
+            Kind::Std => { let f = t!(truth::StdFile::read_from_stream(&mut r, tool.game)); t!(tv.decompile_std(tool.game, &f, &opts)) },
+            Kind::Msg => { let f = t!(truth::MsgFile::read_from_stream(&mut r, tool.game, truth::LanguageKey::Msg)); t!(tv.decompile_msg(tool.game, truth::LanguageKey::Msg, &f, &opts)) },
+            _ => panic!("unsupported tool in C08"),
+        })
+    });
+    match r {
+        Ok(Ok(a)) => Ok(a),
+        Ok(Err(())) => Err(format!("error: {}", first_error_line(&catch(|| truth.get_captured_diagnostics().unwrap_or_default()).unwrap_or_default()))),
+        Err(p) => Err(format!("panic: {}", p.text)),
+    }
+}
+
 fn eval_d(c: &DCase, widths: &[usize]) -> DEval {
     let mut ev = DEval { widths_done: 0, comparisons: 0, changes_with_width: false, t99: String::new(), fails: vec![], outcomes: vec![], discarded: None, reprint_differs: false, warned: false };
     let tool = Tool::new(c.kind, c.game.parse::<truth::Game>().expect("game"));
@@ -1324,33 +1426,54 @@ fn eval_d(c: &DCase, widths: &[usize]) -> DEval {
         ev.discarded = Some(format!("d-source-rejected: {}", b.panic.map(|p| p.text).unwrap_or_else(|| first_error_line(&b.diag))));
         return ev;
     };
-    let mut push_fail = |ev: &mut DEval, kind: &str, w: usize, printed: Option<&str>, note: String| {
+    let push_fail = |ev: &mut DEval, kind: &str, w: usize, printed: Option<&str>, note: String| {
         ev.fails.push(Fail { kind: kind.into(), class: c.class.clone(), width: w, printed: printed.map(|s| s.to_string()), note });
     };
+    // reference run of the whole driver at width 99 (text + diagnostics)
+    let d99 = drive::decompile(tool, &bytes, &DecompOpts { width: 99, mapfiles: vec![&c.mapfile], ..Default::default() });
+    if d99.diag.lines().any(|l| l.starts_with("warning")) { ev.warned = true; }
+    let a = match decompile_ast(tool, &bytes, &c.mapfile) {
+        Ok(a) => a,
+        Err(why) => { ev.discarded = Some(format!("d-binary-not-decompilable: {why}")); return ev; },
+    };
+    let (c0, _) = canon_file(&a, true);
     let mut ws: Vec<usize> = vec![99];
     ws.extend(widths.iter().copied().filter(|&w| w != 99));
-    let mut c99: Option<String> = None;
     let mut texts: BTreeSet<String> = BTreeSet::new();
     for w in ws {
         ev.widths_done += 1;
-        let d = drive::decompile(tool, &bytes, &DecompOpts { width: w, mapfiles: vec![&c.mapfile], ..Default::default() });
-        let Some(t) = d.text else {
-            let (kind, note) = match d.panic { Some(p) => ("D-print-or-decompile-panics", p.text), None => ("D-decompile-fails", first_error_line(&d.diag)) };
-            push_fail(&mut ev, kind, w, None, note); continue;
+        let t = match print_file(&a, w) {
+            Ok(t) => t,
+            Err(p) => { push_fail(&mut ev, "D-print-panics", w, None, p.text); continue; },
         };
-        if d.diag.lines().any(|l| l.starts_with("warning")) { ev.warned = true; }
         texts.insert(t.clone());
-        let a = match parse_file(&t) {
-            Ok(a) => a,
-            Err(ParseErr::Rejected(dg)) => { push_fail(&mut ev, "D-reparse-fails", w, Some(&t), first_error_line(&dg)); continue; },
-            Err(ParseErr::Panicked(p)) => { push_fail(&mut ev, "D-reparse-panics", w, Some(&t), p.text); continue; },
-        };
-        let (cw, _) = canon_file(&a, true);
         if w == 99 {
             ev.t99 = t.clone();
-            c99 = Some(cw);
-            if let Ok(t2) = print_file(&a, 99) { if t2 != t { ev.reprint_differs = true; } }
-            // recompile: the same bytes must come back (literal bits preserved), unless the decompiler warned about a loss
+            if d99.text.as_deref() != Some(&t) { ev.discarded = Some("machinery: drive::decompile text differs from the directly printed decompiler AST".into()); return ev; }
+        }
+        let a2 = match parse_file(&t) {
+            Ok(a2) => a2,
+            Err(ParseErr::Rejected(dg)) => {
+                let root = classify("reparse-fails", &t, &Flags::default(), &c.class);
+                ev.fails.push(Fail { kind: "D-reparse-fails".into(), class: root, width: w, printed: Some(t.clone()), note: first_error_line(&dg) });
+                continue;
+            },
+            Err(ParseErr::Panicked(p)) => { push_fail(&mut ev, "D-reparse-panics", w, Some(&t), p.text); continue; },
+        };
+        ev.comparisons += 1;
+        let (cw, _) = canon_file(&a2, true);
+        if cw != c0 {
+            let kind = if c.nan && t.contains("NAN") && !t.contains("--NAN") { "nan-bits-lost" } else { "D-ast-differs" };
+            let cls = classify(kind, &t, &Flags::default(), &c.class);
+            ev.fails.push(Fail { kind: kind.into(), class: cls, width: w, printed: Some(t.clone()), note: first_diff(&c0, &cw) });
+            continue;
+        }
+        ev.outcomes.push("reparsed-ast-equals-decompiler-ast".into());
+        if w == 99 {
+            if let Ok(t2) = print_file(&a2, 99) { if t2 != t { ev.reprint_differs = true; } }
+            // recompile: the same bytes must come back, unless the decompiler warned about a loss or the
+            // statement is constant-folded by the compiler (all-literal operands of an intrinsic)
+            if c.foldable { ev.outcomes.push("bytes-not-compared:compiler-folds-constant-operands".into()); continue; }
             let r = drive::compile(tool, t.as_bytes(), &copts);
             ev.comparisons += 1;
             match r.bytes {
@@ -1361,13 +1484,6 @@ fn eval_d(c: &DCase, widths: &[usize]) -> DEval {
                     else { push_fail(&mut ev, "D-bytes-differ", w, Some(&t), first_byte_diff(&bytes, &b2)); }
                 },
                 Some(_) => ev.outcomes.push("recompiles-to-same-bytes".into()),
-            }
-        } else {
-            ev.comparisons += 1;
-            match &c99 {
-                Some(c99) if *c99 == cw => ev.outcomes.push("same-ast-as-width-99".into()),
-                Some(c99) => push_fail(&mut ev, "D-width-ast-differs", w, Some(&t), first_diff(c99, &cw)),
-                None => ev.outcomes.push("no-width-99-reference".into()),
             }
         }
     }
@@ -1383,7 +1499,7 @@ fn first_byte_diff(a: &[u8], b: &[u8]) -> String {
 }
 
 fn d_detail(c: &DCase, f: &Fail, widths: &[usize]) -> Value {
-    json!({"source": "D", "class": c.class, "tool": format!("{:?}", c.kind), "game": c.game, "mapfile": c.mapfile, "compile_source": c.source, "nan": c.nan,
+    json!({"source": "D", "class": c.class, "tool": format!("{:?}", c.kind), "game": c.game, "mapfile": c.mapfile, "compile_source": c.source, "nan": c.nan, "foldable": c.foldable,
            "width": f.width, "failing_widths": widths, "kind": f.kind, "printed": f.printed, "note": f.note})
 }
 
@@ -1436,7 +1552,7 @@ fn run_d(rep: &mut Report, acc: &mut Acc, families: &mut BTreeMap<String, u64>, 
 fn replay_d(detail: &Value) -> i32 {
     let kind = match detail["tool"].as_str() { Some("Anm") => Kind::Anm, Some("Ecl") => Kind::Ecl, Some("Msg") => Kind::Msg, Some("Std") => Kind::Std, _ => { println!("unknown tool"); return 2; } };
     let game: &'static str = match detail["game"].as_str() { Some("th12") => "th12", Some("th08") => "th08", Some("th07") => "th07", Some("th06") => "th06", _ => { println!("unknown game"); return 2; } };
-    let c = DCase { class: detail["class"].as_str().unwrap_or("?").into(), kind, game, mapfile: detail["mapfile"].as_str().unwrap_or("").into(), source: detail["compile_source"].as_str().unwrap_or("").into(), nan: detail["nan"].as_bool().unwrap_or(false) };
+    let c = DCase { class: detail["class"].as_str().unwrap_or("?").into(), kind, game, mapfile: detail["mapfile"].as_str().unwrap_or("").into(), source: detail["compile_source"].as_str().unwrap_or("").into(), nan: detail["nan"].as_bool().unwrap_or(false), foldable: detail["foldable"].as_bool().unwrap_or(false) };
     let width = detail["width"].as_u64().unwrap_or(99) as usize;
     println!("--- source compiled to the binary\n{}\n--- width {width}", c.source);
     let ev = eval_d(&c, &[width]);
